@@ -6,6 +6,8 @@ Per case Coq compares the library's line (a) with Create.create_line (all words:
 Create.spec_line (label / class / relpri / target / width / inactive / autorelease in terms of the attribute's components: the
 property -> `failures`)."""
 import concurrent.futures
+import os
+import threading
 
 import common
 import driver
@@ -31,6 +33,104 @@ def tgt_term(tk, targ):
     return "TRoot %d" % targ if tk == 2 else TGT_TERM[tk]
 
 
+def run_harness(exe, cases, forks):
+    """returns (consts, roots, obs list aligned with cases) or an error string.  A run that hit the wall-clock limit is repeated
+    once with 10x the limit before anything is reported"""
+    lines = ["C"] + ["N %d %d %d %d" % (a, tk, targ, fk) for (a, tk, targ), fk in zip(cases, forks)]
+    inp = "\n".join(lines) + "\n"
+    r = common.run([exe], input=inp, timeout=900)
+    if r.returncode == 124:
+        r = common.run([exe], input=inp, timeout=9000)
+    out = [l.split() for l in r.stdout.split("\n") if l.strip()]
+    if r.returncode != 0 or len(out) != len(cases) + 2 or out[0][0] != "C" or out[1][0] != "R":
+        return "creation harness did not complete: rc=%s, %d lines for %d cases; %s" % (r.returncode, len(out), len(cases), (r.stderr or "")[-600:])
+    obs = []
+    for (a, tk, targ), t in zip(cases, out[2:]):
+        v = list(map(int, t))
+        if v[:3] != [a, tk, targ]:
+            return "creation harness output out of step at case %s: %s" % ((a, tk, targ), t)
+        obs.append(v[3:])
+    return list(map(int, out[0][1:])), list(map(int, out[1][1:])), obs
+
+
+def describe(case, o):
+    a, tk, targ = case
+    desc = "%s, attribute index %d%s: status %s" % (TK_NAME[tk], a, " root %d" % targ if tk == 2 else "", o[0])
+    if len(o) >= 12:
+        desc += (", label equal %d copied %d, class %d relpri %d, target %d, width %d, inactive %d, autorelease bits %d, "
+                 "dq_state %d, flags %d, dq_priority %d" % tuple(o[1:12]))
+    return desc
+
+
+def evaluate(cases, consts, roots, obs):
+    """compare inside Coq.  Returns (mismatches, failures) or raises RuntimeError(text) when the model could not be evaluated"""
+    mism, fails = [], []
+    if consts[:19] != MODEL_CONSTS:
+        mism.append({"what": "priority / state / flag constants differ from this file's copy of Model/Create.v", "detail": {"library": consts[:19], "props": MODEL_CONSTS}})
+    if len(obs) != len(cases):
+        raise RuntimeError("%d observations for %d cases" % (len(obs), len(cases)))
+    chunk = 2500
+    chunks = [list(range(i, min(i + chunk, len(cases)))) for i in range(0, len(cases), chunk)]
+
+    def eval_chunk(ci):
+        body = []
+        if ci == 0:
+            body.append("Eval vm_compute in (priority_consts, root_priorities).")
+        rows = []
+        for i in chunks[ci]:
+            a, tk, targ = cases[i]
+            rows.append("((%s), %s, %s, %s)" % ("(%d)" % a if a < 0 else a, tgt_term(tk, targ), "true" if tk == 0 else "false", driver.zlist(obs[i])))
+        body.append("Definition cs : list (Z * tgt * bool * list Z) := [%s]." % ";\n".join(rows))
+        body.append("Eval vm_compute in map (fun '(a, t, lg, o) => b2z (zlist_eqb' (create_line 1 a t lg) o)) cs.")
+        # the property-level judge: status, label equal, label copied, then the six reports
+        body.append("Eval vm_compute in map (fun '(a, t, lg, o) => b2z (match spec_line a t, o with "
+                    "| [4], [4] => true "
+                    "| 0 :: r, 0 :: le :: lc :: cls :: rp :: tg :: w :: ia :: ar :: _ => (le =? 1) && (lc =? 1) && zlist_eqb' r [cls; rp; tg; w; ia; ar] "
+                    "| _, _ => false end)) cs.")
+        name = "c18_create_cases_%d_p%d" % (ci, os.getpid())
+        ok, vals, raw = driver.coq_eval(name, ["Word", "Gen_qos", "Attr", "Create"], "\n".join(body) + "\n", timeout=1200)
+        if not ok and "TIMEOUT" in raw:      # load: once more, alone, 10x
+            with ISOLATED:
+                ok, vals, raw = driver.coq_eval(name, ["Word", "Gen_qos", "Attr", "Create"], "\n".join(body) + "\n", timeout=12000)
+        for ext in (".v", ".vo", ".vok", ".vos", ".glob"):
+            try:
+                os.remove(os.path.join(common.CACHE, "cases", name + ext))
+            except OSError:
+                pass
+        return ok, vals, raw
+    with concurrent.futures.ThreadPoolExecutor(max_workers=4) as ex:
+        evs = list(ex.map(eval_chunk, range(len(chunks))))
+    for ci, (ok, vals, raw) in enumerate(evs):
+        want = 3 if ci == 0 else 2
+        if not ok or len(vals) != want:
+            raise RuntimeError("coqc, c18_create_cases_%d: %s" % (ci, raw[-2000:]))
+        if ci == 0:
+            mc = driver.ints(vals[0])
+            # what Model/Create.v really contains (evaluated by Coq) against the library's values and against this file's copy
+            if mc[:19] != consts[:19] or mc[:19] != MODEL_CONSTS:
+                mism.append({"what": "constants of Model/Create.v (evaluated) differ from the library's / this file's copy",
+                             "detail": {"model_evaluated": mc[:19], "library": consts[:19], "props": MODEL_CONSTS}})
+            if mc[19:] != roots or len(roots) != 12:
+                mism.append({"what": "root queue priorities differ from Model/Create.v root_priority", "detail": {"library": roots, "model": mc[19:]}})
+            vals = vals[1:]
+        tie, judge = driver.ints(vals[0]), driver.ints(vals[1])
+        if len(tie) != len(chunks[ci]) or len(judge) != len(chunks[ci]):
+            raise RuntimeError("c18_create_cases_%d: %d / %d answers for %d cases" % (ci, len(tie), len(judge), len(chunks[ci])))
+        for j, i in enumerate(chunks[ci]):
+            o = obs[i]
+            desc = describe(cases[i], o)
+            if judge[j] != 1:
+                fails.append({"key": "create/%s" % ("refusal" if o == [4] or len(o) < 9 else "report"),
+                              "what": "a queue created by " + desc + " — not what the attribute and target denote (Create.spec_report)",
+                              "create": list(cases[i]), "observed": o})
+            if tie[j] != 1:
+                mism.append({"what": "created queue: library and Model/Create.v differ", "detail": desc, "create": list(cases[i])})
+    return mism, fails
+
+
+ISOLATED = threading.Lock()
+
+
 def correspond_create(ctx):
     exe, msg = common.build_harness("c18_create", ["c18_create.c"], whitebox=True)
     if exe is None:
@@ -51,101 +151,67 @@ def correspond_create(ctx):
             cases.append((a, tk, 0))
         for r in range(12):
             cases.append((a, 2, r))
-    lines = ["C"]
-    nfork = 0
-    for (a, tk, targ) in cases:
-        fk = 1 if (tk >= 3 and overcommit_of(a, count) != 0) or rng.chance(1, 40) else 0
-        nfork += fk
-        lines.append("N %d %d %d %d" % (a, tk, targ, fk))
-    r = common.run([exe], input="\n".join(lines) + "\n", timeout=900)
-    out = [l.split() for l in r.stdout.split("\n") if l.strip()]
-    mism, fails = [], []
-    if r.returncode != 0 or len(out) != len(cases) + 2 or out[0][0] != "C" or out[1][0] != "R":
-        return {"mismatches": [{"what": "creation harness did not complete", "detail": (r.stderr or "")[-800:] + " lines=%d expected=%d rc=%s"
-                                % (len(out), len(cases) + 2, r.returncode)}], "failures": [], "evaluations": 0}
-    consts = list(map(int, out[0][1:]))
-    roots = list(map(int, out[1][1:]))
-    if consts[:19] != MODEL_CONSTS:
-        mism.append({"what": "priority / state / flag constants differ from Model/Create.v", "detail": {"library": consts[:19], "model": MODEL_CONSTS}})
-    obs = []
-    for (a, tk, targ), t in zip(cases, out[2:]):
-        v = list(map(int, t))
-        if v[:3] != [a, tk, targ]:
-            return {"mismatches": [{"what": "creation harness output out of step", "detail": t}], "failures": [], "evaluations": 0}
-        obs.append(v[3:])
-
-    chunk = 2500
-    chunks = [list(range(i, min(i + chunk, len(cases)))) for i in range(0, len(cases), chunk)]
-
-    def eval_chunk(ci):
-        body = []
-        if ci == 0:
-            body.append("Eval vm_compute in (priority_consts, root_priorities).")
-        rows = []
-        for i in chunks[ci]:
-            a, tk, targ = cases[i]
-            rows.append("((%s), %s, %s, %s)" % ("(%d)" % a if a < 0 else a, tgt_term(tk, targ), "true" if tk == 0 else "false", driver.zlist(obs[i])))
-        body.append("Definition cs : list (Z * tgt * bool * list Z) := [%s]." % ";\n".join(rows))
-        body.append("Eval vm_compute in map (fun '(a, t, lg, o) => b2z (zlist_eqb' (create_line 1 a t lg) o)) cs.")
-        # the property-level judge: status, label equal, label copied, then the six reports
-        body.append("Eval vm_compute in map (fun '(a, t, lg, o) => b2z (match spec_line a t, o with "
-                    "| [4], [4] => true "
-                    "| 0 :: r, 0 :: le :: lc :: cls :: rp :: tg :: w :: ia :: ar :: _ => (le =? 1) && (lc =? 1) && zlist_eqb' r [cls; rp; tg; w; ia; ar] "
-                    "| _, _ => false end)) cs.")
-        return driver.coq_eval("c18_create_cases_%d" % ci, ["Word", "Gen_qos", "Attr", "Create"], "\n".join(body) + "\n", timeout=1200)
-    with concurrent.futures.ThreadPoolExecutor(max_workers=4) as ex:
-        evs = list(ex.map(eval_chunk, range(len(chunks))))
-    dist = {"cases": len(cases), "forked": nfork, "refused": 0, "by_target": {}, "inherited_class": 0, "inactive": 0}
-    for ci, (ok, vals, raw) in enumerate(evs):
-        want = 3 if ci == 0 else 2
-        if not ok or len(vals) != want:
-            return {"mismatches": mism + [{"what": "model evaluation failed (coqc, c18_create_cases_%d)" % ci, "detail": raw[-2500:]}],
-                    "failures": fails, "evaluations": 0}
-        if ci == 0:
-            mc = driver.ints(vals[0])
-            if mc[19:] != roots:
-                mism.append({"what": "root queue priorities differ from Model/Create.v root_priority", "detail": {"library": roots, "model": mc[19:]}})
-            vals = vals[1:]
-        tie, judge = driver.ints(vals[0]), driver.ints(vals[1])
-        for j, i in enumerate(chunks[ci]):
-            a, tk, targ = cases[i]
-            o = obs[i]
-            dist["by_target"][TK_NAME[tk]] = dist["by_target"].get(TK_NAME[tk], 0) + 1
-            if o == [4]:
-                dist["refused"] += 1
-            elif len(o) >= 9:
-                dist["inactive"] += o[7]
-                if o[3] != 0 and (a < 0 or (a // 64) % 7 == 0):
-                    dist["inherited_class"] += 1      # the attribute has no QoS: the class comes from the root queue
-            desc = "%s, attribute index %d%s: status %s" % (TK_NAME[tk], a, " root %d" % targ if tk == 2 else "", o[0])
-            if len(o) >= 12:
-                desc += (", label equal %d copied %d, class %d relpri %d, target %d, width %d, inactive %d, autorelease bits %d, "
-                         "dq_state %d, flags %d, dq_priority %d" % tuple(o[1:12]))
-            if judge[j] != 1:
-                fails.append({"key": "create/%s" % ("refusal" if o == [4] or len(o) < 9 else "report"),
-                              "what": "a queue created by " + desc + " — not what the attribute and target denote (Create.spec_report)",
-                              "create": [a, tk, targ], "observed": o})
-            if tie[j] != 1:
-                mism.append({"what": "created queue: library and Model/Create.v differ", "detail": desc})
+    forks = [1 if (tk >= 3 and overcommit_of(a, count) != 0) or rng.chance(1, 40) else 0 for (a, tk, targ) in cases]
+    got = run_harness(exe, cases, forks)
+    if isinstance(got, str):
+        return {"mismatches": [{"what": got}], "failures": [], "evaluations": 0}
+    consts, roots, obs = got
+    try:
+        mism, fails = evaluate(cases, consts, roots, obs)
+    except RuntimeError as e:
+        return {"mismatches": [{"what": "model evaluation failed (c18_create)", "detail": str(e)}], "failures": [], "evaluations": 0}
+    dist = {"cases": len(obs), "forked": sum(forks), "refused": 0, "by_target": {}, "inherited_class": 0, "inactive": 0}
+    for (a, tk, targ), o in zip(cases, obs):
+        dist["by_target"][TK_NAME[tk]] = dist["by_target"].get(TK_NAME[tk], 0) + 1
+        if o == [4]:
+            dist["refused"] += 1
+        elif len(o) >= 9:
+            dist["inactive"] += o[7]
+            if o[3] != 0 and (a < 0 or (a // 64) % 7 == 0):
+                dist["inherited_class"] += 1      # the attribute has no QoS: the class comes from the root queue
+    if len(obs) < count + 1 and not mism:
+        mism.append({"what": "fewer creations measured (%d) than table entries (%d)" % (len(obs), count + 1)})
     seen, uniq = {}, []
     for f in fails:
         seen[f["key"]] = seen.get(f["key"], 0) + 1
         if seen[f["key"]] <= 3:
             uniq.append(f)
-    return {"evaluations": len(cases), "distinct_nontrivial": len(set(cases)),
+    return {"evaluations": len(obs), "distinct_nontrivial": len(set(cases)),
             "rule": "CREATION: every entry of the attribute table and NULL through dispatch_queue_create, plus seeded random target kinds per "
                     "entry and a full grid (NULL, each of the 12 global root queues, serial / concurrent lane, workloop, main queue) on seeded "
-                    "random entries; label (strcmp and a private copy), dispatch_queue_get_qos_class (class and relative priority), and "
-                    "do_targetq / dq_width / dq_state / dq_atomic_flags / dq_priority read from the queue, compared inside Coq with "
-                    "Model/Create.v (words) and with Create.spec_report (attribute components); refused creations run in forked children",
+                    "random entries; label (strcmp and a private copy; the model passes the label through, so this is a check of the library "
+                    "only), dispatch_queue_get_qos_class (class and relative priority), and do_targetq / dq_width / dq_state / dq_atomic_flags / "
+                    "dq_priority read from the queue, compared inside Coq with Model/Create.v (words) and with Create.spec_report (attribute "
+                    "components); refused creations run in forked children; NULL labels and pthread-root-queue targets are not exercised",
             "samples": [{"create": list(cases[k]), "observed": obs[k]} for k in (0, 5, len(cases) - 3)],
             "distribution": dist, "mismatches": mism[:40], "failures": uniq[:12]}
 
 
 def replay_create(ctx, f):
+    """re-create the recorded case on the current build and re-judge it in Coq: 1 = still wrong, 0 = does not reproduce, 2 = nothing ran"""
+    if "create" not in f:
+        print("this entry names no creation (%s): only a full ./check C18 re-establishes it" % str(f.get("what"))[:200])
+        return 2
     exe, msg = common.build_harness("c18_create", ["c18_create.c"], whitebox=True)
-    a, tk, targ = f["create"]
-    r = common.run([exe], input="N %d %d %d 1\n" % (a, tk, targ), timeout=60)
-    print("N %d %d %d -> %s (recorded %s)" % (a, tk, targ, r.stdout.strip(), f.get("observed")))
-    print("recorded: " + f["what"])
-    return 1
+    if exe is None:
+        print("harness build failed: " + msg[-500:])
+        return 2
+    case = tuple(f["create"])
+    got = run_harness(exe, [case], [1])
+    if isinstance(got, str):
+        print(got)
+        return 2
+    consts, roots, obs = got
+    try:
+        mism, fails = evaluate([case], consts, roots, obs)
+    except RuntimeError as e:
+        print("the model could not be evaluated: " + str(e)[:600])
+        return 2
+    print("N %d %d %d -> %s (recorded %s)" % (case + (obs[0], f.get("observed"))))
+    print("recorded: " + str(f.get("what"))[:700])
+    now = fails if f.get("key") else mism
+    if now or fails:
+        print("REPRODUCES: " + str((now or fails)[0]["what"])[:900])
+        return 1
+    print("does not reproduce (the creation now agrees with Model/Create.v and with spec_report)")
+    return 0
